@@ -49,11 +49,19 @@ def generic_replay(rep, log):
         return 0
     if "case" in rep:
         case = enc.case_from_repr(rep["case"])
-        r = enc.run_case(case)
-        print("implementation outcome:", r.get("outcome", r.get("setup_error"))[:2] if "outcome" in r else r.get("setup_error"))
+        recs = enc.attach_model_and_spec([enc.run_case(case)])
+        r = recs[0]
+        print("implementation outcome:", (r["outcome"][:2] if "outcome" in r else r.get("setup_error")))
         if "segs" in r:
-            print("model:", ask([enc.compile_request(r)])[0][:200])
-            if r["outcome"][0] == "ok":
-                print("spec.read:", ask(["spec.read " + fmt_mat(r["outcome"][2])])[0][:300])
-        return 1
+            print("model:", r.get("model", "")[:160])
+            print("spec.read:", r.get("spec", "-")[:300])
+        # the round-trip predicate (C01) on this single case, as a verdict for the replay
+        from . import C01
+        R = Res("replay")
+        C01.check_records(R, recs)
+        if R.violations or R.corr_failures:
+            print("REPLAY: still failing:", (R.violations or R.corr_failures)[0].get("observed", R.corr_failures[0] if R.corr_failures else ""))
+            return 1
+        print("REPLAY: the implementation handles this input correctly now")
+        return 0
     return 1
